@@ -855,6 +855,31 @@ class CategoricalContains(FnContract):
         return "CategoricalROI(['M', 'F']).contains(array(['M', 'Male', 'F', 'Fem', '']), None)"
 
 
+
+class CategoricalUpdate(FnContract):
+    """representation invariant used by CategoricalContains: the categories held by a region are always the output of np.unique
+    (strictly increasing, distinct) - established by update_categories, the only writer besides reset()"""
+    property_ids = ('C08', 'C09')
+    target = ROI + ":CategoricalROI.update_categories"
+    title = "the categories held are np.unique (sorted, distinct) of exactly the labels given"
+
+    def inputs(self, cfg, P):
+        given = PObj('labels', fields={'desc': 'given'})
+        given.methods['__getitem__'] = lambda I, self_, key: self_
+        roi = PObj('CategoricalROI', fields={'categories': None})
+        ft = FunctionText(ROI, 'CategoricalROI._categorical_helper')
+        roi.methods['_categorical_helper'] = lambda I, self_, indata: Interp(I.path, I.globals, Hooks(name=I.hooks.name), ft).run_function(ft, [self_, indata], {})
+        return Inputs([roi, given], st=St(roi=roi, given=given))
+
+    def globals_(self, cfg, st):
+        return {'numpy.unique': Builtin('np.unique', lambda I, a, **k: PObj('sorted-labels', fields={'unique-of': a, 'kw': k})),
+                'CategoricalComponent': PType('CategoricalComponent'), 'isinstance': Builtin('isinstance', lambda I, v_, t: False)}
+
+    def ensures(self, cfg, st, result):
+        c = st.roi.fields['categories']
+        return [('categories-are-np.unique-of-the-given-labels', isinstance(c, PObj) and c.cls == 'sorted-labels' and c.fields['unique-of'] is st.given and not c.fields['kw'])]
+
+
 CONTRACTS = [RectContains(), RectToPolygon(), RectMoveTo(), RectTranspose(), CircleContains(), AnnulusContains(), EllipseContains(),
              RangeContains(), RangeMoveTo(), _mv('CircularROI', ('radius',)), _mv('CircularAnnulusROI', ('inner_radius', 'outer_radius')),
-             _mv('EllipticalROI', ('radius_x', 'radius_y', 'theta')), RotateBy(), Contains3d(), CategoricalContains()]
+             _mv('EllipticalROI', ('radius_x', 'radius_y', 'theta')), RotateBy(), Contains3d(), CategoricalContains(), CategoricalUpdate()]
